@@ -169,6 +169,41 @@ pub enum Framing {
     Null,
 }
 
+/// Header fields that are part of no connection identity and of no decoder decision.
+#[derive(Clone, Debug)]
+pub struct Misc {
+    pub macs: [u8; 12],
+    pub tos: u8,
+    pub id: u16,
+    pub ttl: u8,
+    pub ipck: u16,
+    pub flow: [u8; 3],
+    pub tcpck: u16,
+    pub urg: u16,
+}
+impl Default for Misc {
+    fn default() -> Misc {
+        Misc { macs: [2, 0, 0, 0, 0, 1, 2, 0, 0, 0, 0, 2], tos: 0, id: 0x1234, ttl: 64, ipck: 0, flow: [0, 0, 0], tcpck: 0, urg: 0 }
+    }
+}
+impl Misc {
+    pub fn random(r: &mut Rng) -> Misc {
+        let b = r.bytes(12);
+        let mut macs = [0u8; 12];
+        macs.copy_from_slice(&b);
+        Misc {
+            macs,
+            tos: *r.pick(&[0u8, 1, 2, 3, 0x10, 0xff]),
+            id: r.next() as u16,
+            ttl: *r.pick(&[64u8, 128, 255, 1, 0, 57]),
+            ipck: r.next() as u16,
+            flow: [r.next() as u8 & 0x0f, r.next() as u8, r.next() as u8],
+            tcpck: r.next() as u16,
+            urg: if r.chance(1, 2) { 0 } else { r.next() as u16 },
+        }
+    }
+}
+
 #[derive(Clone, Debug)]
 pub struct FrameSpec {
     pub framing: Framing,
@@ -185,6 +220,7 @@ pub struct FrameSpec {
     pub src6: u128,
     pub dst6: u128,
     pub ip_fill: u8, // byte used for option bytes when ihl > 5
+    pub misc: Misc, // header fields that belong to no identity
     pub sp: u16,
     pub dp: u16,
     pub seq: u32,
@@ -214,6 +250,7 @@ impl FrameSpec {
             src6: A6[0],
             dst6: A6[1],
             ip_fill: 1,
+            misc: Misc::default(),
             sp: 50000,
             dp: 80,
             seq: 1000,
@@ -242,7 +279,8 @@ impl FrameSpec {
         t.push(self.doff << 4);
         t.push(self.flags);
         t.extend(self.win.to_be_bytes());
-        t.extend([0, 0, 0, 0]);
+        t.extend(self.misc.tcpck.to_be_bytes());
+        t.extend(self.misc.urg.to_be_bytes());
         t.extend(&self.tcp_opts);
         t.extend(&self.payload);
         t
@@ -252,26 +290,26 @@ impl FrameSpec {
         let mut ip = Vec::new();
         if self.v6 {
             let vn = self.ver_nibble.unwrap_or(6);
-            ip.push(vn << 4);
-            ip.extend([0, 0, 0]);
+            ip.push((vn << 4) | (self.misc.flow[0] >> 4));
+            ip.extend([self.misc.flow[0] << 4 | (self.misc.flow[1] >> 4), self.misc.flow[1], self.misc.flow[2]]);
             let pl = self.total_len.unwrap_or(tcp.len() as u16);
             ip.extend(pl.to_be_bytes());
             ip.push(self.proto);
-            ip.push(64);
+            ip.push(self.misc.ttl);
             ip.extend(self.src6.to_be_bytes());
             ip.extend(self.dst6.to_be_bytes());
         } else {
             let vn = self.ver_nibble.unwrap_or(4);
             ip.push((vn << 4) | (self.ihl & 15));
-            ip.push(0);
+            ip.push(self.misc.tos);
             let optlen = (self.ihl as usize * 4).saturating_sub(20);
             let tl = self.total_len.unwrap_or((20 + optlen + tcp.len()) as u16);
             ip.extend(tl.to_be_bytes());
-            ip.extend([0x12, 0x34]);
+            ip.extend(self.misc.id.to_be_bytes());
             ip.extend(self.frag.to_be_bytes());
-            ip.push(64);
+            ip.push(self.misc.ttl);
             ip.push(self.proto);
-            ip.extend([0, 0]);
+            ip.extend(self.misc.ipck.to_be_bytes());
             ip.extend(self.src4.to_be_bytes());
             ip.extend(self.dst4.to_be_bytes());
             for _ in 0..optlen {
@@ -282,7 +320,7 @@ impl FrameSpec {
         let mut f = Vec::new();
         match self.framing {
             Framing::Eth => {
-                f.extend([2, 0, 0, 0, 0, 1, 2, 0, 0, 0, 0, 2]);
+                f.extend(self.misc.macs);
                 let et = self.ethertype.unwrap_or(if self.v6 { 0x86DD } else { 0x0800 });
                 f.extend(et.to_be_bytes());
             }
@@ -402,6 +440,9 @@ pub fn gen_frame(r: &mut Rng) -> FrameSpec {
     f.src6 = pick6(r);
     f.dst6 = pick6(r);
     f.ip_fill = *r.pick(&[1u8, 0, 0x44, 6]);
+    if r.chance(1, 2) {
+        f.misc = Misc::random(r);
+    }
     f.sp = pick_port(r);
     f.dp = pick_port(r);
     f.seq = r.next() as u32;
